@@ -18,6 +18,7 @@ limitations under the License.
 #include <photon/common/callback.h>
 #include <photon/common/timeout.h>
 #include <photon/thread/stack-allocator.h>
+#include <photon/common/verif-hook.h>
 
 #include <atomic>
 #include <cassert>
@@ -515,6 +516,7 @@ namespace photon
             if (count == 0) return 0;
             SCOPED_LOCK(splock);
             auto cnt = m_count.fetch_add(count) + count;
+            VT_EVT(VT_SEM_ADD, this, count, cnt, splock.locked());
             try_resume(cnt);
             return 0;
         }
